@@ -75,3 +75,33 @@ Theorem C12_source_usage_counter : forall c now has_log has_stat e,
   run_prepare_read fn_TraitOf_PrepareRead true c now has_log has_stat true e = Some (model_found c now e has_stat).
 Proof. intros; split; [exact (tie_prepare_read_found _ _ _ _ _) | exact (tie_prepare_read_of_found _ _ _ _ _)]. Qed.
 Print Assumptions C12_source_usage_counter.
+
+From Cache Require Import TieEvict.
+
+(* evictLeast: collect (hash/key, metric); sort ascending by metric; delete the first int(float64(len) * fraction);
+   the metric is E for evictMostExpired and C for evictLeastCounter *)
+Theorem C12_source_evict_least_sharded : forall ftrunc f, f = fn_shardedMap_evictLeast \/ f = fn_shardedMapOf_evictLeast ->
+  exists p, sharded_parts f = Some p /\
+    less_ok ftrunc p /\ count_ok ftrunc p /\ del_header_ok p /\
+    run_part_v ftrunc (ep_var p) (ep_collect p) 0 0 0 =
+      Some (inr None, [("collect", [VRec "evictLeastEntry" [("hash", VPtr true "hash of the entry"); ("val", VRec "metric of" [("entry", VPtr true "entry")])]])]) /\
+    run_part ftrunc (ep_del_body p) 0 0 0 =
+      Some (inr None, [("Lock", []); ("delete by hash", [VPtr true "hash of entries[i]"]); ("Unlock", [])]).
+Proof. exact tie_evict_sharded. Qed.
+Print Assumptions C12_source_evict_least_sharded.
+
+Theorem C12_source_evict_least_sync : forall ftrunc,
+  exists p, sync_parts fn_syncMap_evictLeast = Some p /\
+    less_ok ftrunc p /\ count_ok ftrunc p /\ del_header_ok p /\
+    run_part ftrunc (ep_collect p) 0 0 0 =
+      Some (inl [VB true],
+            [("collect", [VRec "en" [("val", VRec "metric of" [("entry", VPtr true "entry")]);
+                                     ("key", VRec "string" [("of", VPtr true "key of the entry")])]])]) /\
+    run_part ftrunc (ep_del_body p) 0 0 0 = Some (inr None, [("delete by key", [VPtr true "key of entries[i]"])]).
+Proof. exact tie_evict_sync. Qed.
+Print Assumptions C12_source_evict_least_sync.
+
+Theorem C12_source_evict_metrics :
+  metric_field fn_shardedMap_evictMostExpired = Some "i.E" /\ metric_field fn_shardedMap_evictLeastCounter = Some "i.C".
+Proof. exact tie_evict_metrics. Qed.
+Print Assumptions C12_source_evict_metrics.
